@@ -78,6 +78,20 @@ func (r *Rec) check(cond bool, rule, construct, pos, okDetail, failDetail string
 	}
 	return cond
 }
+// verdict: bad == "" discharges; a complaint that starts with "skip:" records that the rule
+// could not be evaluated on this shape of code; anything else is a violation.
+func (r *Rec) verdict(rule, construct, pos, okDetail, bad string) bool {
+	switch {
+	case bad == "":
+		r.ok(rule, construct, pos, okDetail)
+		return true
+	case strings.HasPrefix(bad, "skip:"):
+		r.skip(rule, construct, pos, strings.TrimSpace(strings.TrimPrefix(bad, "skip:")))
+		return true
+	}
+	r.fail(rule, construct, pos, bad)
+	return false
+}
 func (r *Rec) count(what string, n int) { r.Analysed[what] += n }
 func (r *Rec) note(s string)            { r.Notes = append(r.Notes, s) }
 
